@@ -343,9 +343,9 @@ def run_case(case):
         except AllocationError:
             pass
         if list(zl) != list(case["zeroed"]) or list(al) != list(case["any_state"]):
-            viol("caller_registers_modified_by_the_transform", {},
-                 {"zeroed_before": list(case["zeroed"]), "zeroed_after": list(zl),
-                  "any_state_before": list(case["any_state"]), "any_state_after": list(al)})
+            # not a violation of this property by itself (that would be "transforms never modify their
+            # input"); what counts is whether the second application below still resolves correctly
+            counters["caller_registers_modified_by_first_application"] = 1
     try:
         (resolved,), _ = qp.transforms.resolve_dynamic_wires(
             tape, zeroed=zl, any_state=al,
